@@ -49,6 +49,19 @@ pub use word_metadata::{
     AdverbData, ConjunctionData, Dialect, NounData, PronounData, Tense, VerbData, WordMetadata,
 };
 
+/// Verification hooks: re-exports of crate-private items so that out-of-tree model-checking
+/// harnesses can drive the real functions. Compiled only under `cfg(kani)`; adds no logic.
+#[cfg(kani)]
+pub mod verif_hooks {
+    pub use crate::edit_distance::{edit_distance, edit_distance_min_alloc};
+    pub use crate::lexing::verif::*;
+    pub use crate::lexing::{
+        FoundToken, lex_hex_number, lex_long_decade, lex_number, lex_plural_digit, lex_regexish,
+        lex_token,
+    };
+    pub use crate::linting::verif::*;
+}
+
 /// A utility function that removes overlapping lints in a vector,
 /// keeping the more important ones.
 ///
